@@ -30,13 +30,13 @@ theorem stream_clear (h : List Op) : stream (h ++ [.clear]) = [] := stream_snoc_
 /-- the weights are additive over the stream -/
 theorem trueWeight_addN (h : List Op) (x n y : Nat) :
     trueWeight (h ++ [.addN x n]) y = trueWeight h y + if x = y then n else 0 := by
-  simp [trueWeight, stream_snoc_addN, weightOf_append, weightOf]
+  simp [trueWeight, stream_snoc_addN, weightOf]
 theorem trueWeight_merge (h o : List Op) (y : Nat) :
     trueWeight (h ++ [.merge o]) y = trueWeight h y + trueWeight o y := by
   simp [trueWeight, stream_snoc_merge, weightOf_append]
 theorem totalWeight_addN (h : List Op) (x n : Nat) :
     totalWeight (h ++ [.addN x n]) = totalWeight h + n := by
-  simp [totalWeight, stream_snoc_addN, total_append, total]
+  simp [totalWeight, stream_snoc_addN, total]
 theorem totalWeight_merge (h o : List Op) :
     totalWeight (h ++ [.merge o]) = totalWeight h + totalWeight o := by
   simp [totalWeight, stream_snoc_merge, total_append]
@@ -145,16 +145,16 @@ theorem overflow_is_error {hash : List Nat → Nat} {w d cmax : Nat} (hw : 0 < w
 
 /-- a `3 × 2` sketch (`w ≠ d`) with a colliding hasher, merge and clear -/
 example : run (fun l => l.sum) 3 2 10 [.addN 1 2, .merge [.addN 1 3, .addN 2 1], .addN 4 4] =
-    some ⟨3, 2, 10, #[5, 1, 4, 9, 0, 1]⟩ := by decide
+    some ⟨3, 2, 10, #[9, 1, 0, 9, 0, 1]⟩ := by decide
 example : (run (fun l => l.sum) 3 2 10 [.addN 1 2, .merge [.addN 1 3, .addN 2 1], .addN 4 4]).bind
-    (query (fun l => l.sum) · 1) = some 5 := by decide
+    (query (fun l => l.sum) · 1) = some 9 := by decide  -- elements 1 and 4 collide in both rows
 example : trueWeight [.addN 1 2, .merge [.addN 1 3, .addN 2 1], .addN 4 4] 1 = 5 ∧
     totalWeight [.addN 1 2, .merge [.addN 1 3, .addN 2 1], .addN 4 4] = 10 := by decide
 /-- overflow is reported, not wrapped -/
 example : run (fun l => l.sum) 3 2 10 [.addN 1 6, .addN 1 5] = none := by decide
 example : run (fun l => l.sum) 3 2 10 [.addN 1 6, .merge [.addN 1 5]] = none := by decide
 /-- a constant hasher (all elements collide): the estimate is the stream total -/
-example : (run (fun _ => 0) 2 3 255 [.addN 1 6, .addN 2 5, .clear, .addN 3 7, .addN 9 1]).bind
-    (query (fun _ => 0) · 3) = some 8 := by decide
+example : (run (fun _ => 0) 2 3 9 [.addN 1 3, .addN 2 2, .clear, .addN 3 4, .addN 9 1]).bind
+    (query (fun _ => 0) · 3) = some 5 := by decide +kernel
 
 end Pds.Props.C02
